@@ -140,7 +140,7 @@ def strat(tier):
         'cls': st.sampled_from(['OMD', 'OMD', 'OMD', 'OMD', 'QPD']),
         'ctor': st.tuples(st.sampled_from(['empty', 'pairs', 'dict', 'omd', 'kwargs', 'iter', 'pairs+kwargs']), _pairs, _kw).map(list),
         'ops': st.lists(_op(), max_size=n),
-        'repeat': st.sampled_from(REPEATS),
+        'repeat': st.sampled_from([1] * 44 + [10, 40]),
     })
 
 
@@ -666,5 +666,5 @@ def run(case):
 
 SUBS = {
     'omd': Sub('omd', strat, run, quick=7000, thorough=320000, doc='OMD histories vs list-of-pairs model',
-               quick_shards=8),
+               quick_shards=16),
 }
